@@ -36,12 +36,12 @@ PARTIAL = ["cq.* ops with a Coq-side model (Model/ChkC20Cqm.v over g9's Model/Ex
            "variable info, per expression variables() order, linear by position, offset, quadratic per unordered pair (sum + presence), "
            "expr_ok evaluated on the observed state): add_variable(s), add_constraint() / add_constraints, new_constraint + add_constraint "
            "by copy and by move, add_constraint from a QuadraticModel (copy path with distinct labels, move path), add_linear_constraint, "
-           "set_objective (with and without mapping), remove_constraint, remove_variable, fix_variable, substitute_variable, change_vartype, "
+           "set_objective (with and without mapping), remove_constraint, remove_variable, fix_variable, fix_variables (bulk, copying, into either object), substitute_variable, change_vartype, "
            "set_lower/upper_bound, clear, copy ctor/assignment, move ctor/assignment, swap, and on an expression: add_linear, set_linear, "
-           "add_quadratic, add_offset, set_offset, remove_interaction, remove_variable, remove_variables, substitute_variable, clear",
+           "add_quadratic, add_quadratic_back (within its ordering promise on the internal indices), add_offset, set_offset, remove_interaction, remove_variable, remove_variables, substitute_variable, clear",
            "cq.* ops that stay sanitizer-only (native invariant + ASan/UBSan + live assertions; the Coq model is re-loaded from the dump "
            "after them): Expression::set_quadratic, Expression::fix_variable, Expression/Constraint::scale, "
-           "ConstrainedQuadraticModel::fix_variables (bulk, copying), remove_constraints_if, add_constraint(QM const&) with repeated labels "
+           "remove_constraints_if, add_constraint(QM const&) with repeated labels "
            "in the mapping; constraint attributes (sense, rhs, weight, penalty, discrete marker), energy, is_disjoint and weak_ptr "
            "expiry are executed but not compared",
            "indices_ of an Expression is not observable through the public C++ API: its consistency with variables() is checked by the "
